@@ -16,7 +16,8 @@ PROP = "C08"
 LEVEL = "exploration"
 SHARDS = {"quick": 8, "thorough": 16}
 TIMEOUT = {"quick": 900, "thorough": 7200}
-REQUIRED = {"request_size": 50, "kernel_request_size": 5, "prng_reset": 50, "tape_replay": 50, "bit_variation": 5, "no_repeat": 5, "mixed_history": 20, "config_request_size": 90}
+THOROUGH_MULT = 20   # thorough budgets below are multiplied by this (sized for roughly five minutes on 16 cores)
+REQUIRED = {"request_size": 50, "kernel_request_size": 5, "prng_reset": 50, "tape_replay": 50, "bit_variation": 5, "no_repeat": 5, "mixed_history": 20, "config_request_size": 90, "import_fault": 20}
 ANCHORS = ['bip39:mnemonic_from_entropy_bits', 'base_wallet:BaseWallet.new_wallet', 'base_wallet:BaseWallet.from_entropy_bits']
 RULE = ("histories of consecutive new_wallet / mnemonic_from_entropy_bits calls over all five lengths in one process, "
         "interleaved with random.seed / random.random noise and wall-clock changes; four observers: in-process request size "
@@ -108,6 +109,108 @@ def strace_observe(k=2):
         return results, None
     finally:
         shutil.rmtree(d, ignore_errors=True)
+
+
+FAULT_CHILD = r'''
+import json, os, random, sys
+sys.path.insert(0, %(repo)r)
+EXC = {"NotImplementedError": NotImplementedError, "OSError": OSError}[%(exc)r]
+real_urandom = os.urandom
+real_getrandom = getattr(os, "getrandom", None)
+state = {"fail": True, "bytes": 0, "refused": 0}
+def fake_urandom(n):
+    if state["fail"]:
+        state["refused"] += 1
+        raise EXC("no OS randomness source (injected)")
+    state["bytes"] += n
+    return real_urandom(n)
+def fake_getrandom(n, flags=0):
+    if state["fail"]:
+        state["refused"] += 1
+        raise EXC("no OS randomness source (injected)")
+    state["bytes"] += n
+    return real_getrandom(n, flags)
+os.urandom = fake_urandom
+random._urandom = fake_urandom
+if real_getrandom is not None:
+    os.getrandom = fake_getrandom
+out = {"import": "ok", "calls": [], "refused_during_import": 0}
+try:
+    import btc_hd_wallet.bip39 as b39
+    from btc_hd_wallet.base_wallet import BaseWallet
+    from btc_hd_wallet.paper_wallet import PaperWallet
+except BaseException as e:
+    out["import"] = "raised:" + type(e).__name__
+    print(json.dumps(out)); sys.exit(0)
+out["refused_during_import"] = state["refused"]
+state["fail"] = %(still)r
+ENT = {12: 128, 15: 160, 18: 192, 21: 224, 24: 256}
+def call(api, L):
+    if api == "new_wallet":
+        return BaseWallet.new_wallet(mnemonic_length=L).mnemonic
+    if api == "paper_new_wallet":
+        return PaperWallet.new_wallet(mnemonic_length=L, testnet=True, password="pw").mnemonic
+    if api == "from_entropy_bits":
+        return BaseWallet.from_entropy_bits(entropy_bits=ENT[L]).mnemonic
+    return b39.mnemonic_from_entropy_bits(entropy_bits=ENT[L])
+for api in ("new_wallet", "paper_new_wallet", "from_entropy_bits", "bits"):
+    for L in (12, 15, 18, 21, 24):
+        rec = {"api": api, "words": L, "runs": []}
+        for rep in range(2):
+            random.seed(%(seed)d)
+            state["bytes"] = 0
+            try:
+                mn = call(api, L)
+                rec["runs"].append({"outcome": "wallet", "mnemonic": mn, "os_bytes": state["bytes"]})
+            except BaseException as e:
+                rec["runs"].append({"outcome": "raised:" + type(e).__name__, "os_bytes": state["bytes"]})
+        out["calls"].append(rec)
+print(json.dumps(out))
+'''
+
+
+def judge_import_fault(ctx, case):
+    '''Fault at a particular point: the OS randomness doors (os.urandom, random._urandom, os.getrandom) refuse while the
+    package is being IMPORTED (what a chroot without /dev/urandom does), then either keep refusing or recover.  Whatever
+    the package set up at import time, a wallet handed out afterwards must be OS entropy: violation = a wallet that was
+    returned although fewer than ENT/8 bytes came through the doors AND that repeats when the process-wide PRNG is reset
+    to the same state (both clauses, so that code reading /dev/urandom directly is not blamed).'''
+    d = tempfile.mkdtemp(prefix="vp-c08f-")
+    try:
+        script = os.path.join(d, "fault_child.py")
+        open(script, "w").write(FAULT_CHILD % {"repo": os.path.realpath(REPO), "exc": case["exc"], "still": case["still_failing"], "seed": case["seed"]})
+        env = dict(os.environ, PYTHONDONTWRITEBYTECODE="1", PYTHONHASHSEED="0")
+        env.pop("PYTHONPATH", None)
+        try:
+            p = subprocess.run([sys.executable, script], capture_output=True, text=True, timeout=300, env=env)
+        except subprocess.TimeoutExpired:
+            ctx.note_inconclusive("import-fault child timed out (%s)" % case)
+            return None
+        try:
+            import json as _json
+            out = _json.loads(p.stdout.strip().splitlines()[-1])
+        except Exception:  # noqa
+            ctx.note_inconclusive("import-fault child produced no report rc=%s: %s" % (p.returncode, (p.stderr or "")[-300:]))
+            return None
+    finally:
+        shutil.rmtree(d, ignore_errors=True)
+    tag = "%s|%s" % (case["exc"], "permanent" if case["still_failing"] else "recovers")
+    if out["import"] != "ok":
+        # refusing to import without an entropy source is a refusal, not a wallet
+        return ctx.judge("import_fault", True, case, "no wallet without OS entropy", out["import"], cls="importfault|%s|import-refused" % tag, outcome="import-refused")
+    for rec in out["calls"]:
+        need = ENT[rec["words"]] // 8
+        runs = rec["runs"]
+        wallets = [r for r in runs if r["outcome"] == "wallet"]
+        starved = [r for r in wallets if r["os_bytes"] < need]
+        repeats = len(wallets) == 2 and wallets[0]["mnemonic"] == wallets[1]["mnemonic"]
+        ok = not (starved and repeats)
+        outcome = "refused" if not wallets else ("os-entropy" if not starved else ("starved-but-varies" if ok else "prng-wallet"))
+        ctx.judge("import_fault", ok, dict(case, api=rec["api"], words=rec["words"]),
+                  "error, or a wallet backed by >= %d bytes from the OS that does not repeat after random.seed" % need,
+                  [{k: r[k] for k in r} for r in runs], cls="importfault|%s|%s|%d" % (tag, rec["api"], rec["words"]), outcome=outcome,
+                  mech="C08.import_fault.prng_wallet")
+    ctx.extra["import_fault_refusals_during_import"] = ctx.extra.get("import_fault_refusals_during_import", 0) + out.get("refused_during_import", 0)
 
 
 def _call(api, L):
@@ -333,6 +436,11 @@ def run(ctx):
     apis = ["new_wallet", "bits", "from_entropy_bits"]
     if ctx.shard == 0:
         judge_kernel(ctx, k=2 if not ctx.thorough else 20)
+    fault_cells = [(e, st) for e in ("NotImplementedError", "OSError") for st in (True, False)]
+    for fi, (e, st) in enumerate(fault_cells):
+        if ctx.mine(fi + 1):
+            for rep in range(1 if not ctx.thorough else 3):
+                judge_import_fault(ctx, {"exc": e, "still_failing": st, "seed": rnd.randrange(0, 1 << 30)})
     for j in range(ctx.scale(120, 8000)):
         judge_request_size(ctx, {"api": apis[j % 3], "words": LENGTHS[(j // 3) % 5], "n": j})
     for j in range(ctx.scale(120, 6000)):
@@ -386,5 +494,9 @@ def replay(ctx, monitor, case):
         judge_mixed_history(ctx, case)
     elif monitor == "kernel_request_size":
         judge_kernel(ctx, 2)
+    elif monitor == "import_fault":
+        case.pop("api", None)
+        case.pop("words", None)
+        judge_import_fault(ctx, case)
     else:
         judge_variation(ctx, case["words"], case["K"], ["bits"])
